@@ -306,16 +306,21 @@ def check_toolbox(case):
             tree = gen.matlab(text, wrapper=w)
             text = first + '// ---- second wrap() of the same wrapper object ----\n' + text
         else:
-            tree = gen.matlab(text, ignore=ignore, serialization=ser)
+            tree = gen.matlab(text, ignore=ignore, serialization=ser, module_name=case.get('module', 'mod'))
     except Exception as e:
         return {'viol': [{'sig': 'C05|exception|%s|%s' % (type(e).__name__, '+'.join(sorted(set(seq)))[:60]),
                           'msg': 'generator raised %s: %s\nsequence=%s\n--- input ---\n%s' % (type(e).__name__, str(e)[:300], seq, text)}]}
-    cpp = tree.get('mod_wrapper.cpp')
+    gateway = case.get('module', 'mod') + '_wrapper'      # the gateway is called <module name>_wrapper whatever the module is called
+    cpp = tree.get(gateway + '.cpp')
     if cpp is None:
-        add('no-mex-source', 'no mod_wrapper.cpp generated: %s' % sorted(tree))
+        add('no-mex-source', 'no %s.cpp generated: %s' % (gateway, sorted(tree)))
         return {'viol': viol}
     mex = gen.scan_mex(cpp)
-    sites, inconclusive = site_roles(tree, 'mod_wrapper')
+    sites, inconclusive = site_roles(tree, gateway)
+    # every call of a function whose name ends in _wrapper must be a call of this gateway
+    stray = sorted({m_ for t_ in tree.values() if t_ for m_ in re.findall(r'\b(\w+_wrapper)\(', t_ if isinstance(t_, str) else '')} - {gateway})
+    if stray:
+        add('call-of-another-gateway', 'generated files call %s, the gateway of this module is %s' % (stray, gateway))
     ids_sites = [s[0] for s in sites]
     case_ids = [c[0] for c in mex['cases']]
     n = len(case_ids)
@@ -421,6 +426,10 @@ def run(ctx):
         cases.append({'seq': s, 'ser': False})
         if 'serial' in s:
             cases.append({'seq': s, 'ser': True})
+    # module names that look like the gateway's own name
+    for k1 in ALPHABET:
+        for modname in ('nav_wrapper', 'wrapper', 'x_wrapper_y'):
+            cases.append({'seq': [k1], 'ser': False, 'module': modname})
     # histories: one wrapper object wraps two modules one after the other
     for k1 in ALPHABET:
         for k2 in ALPHABET:
